@@ -151,6 +151,10 @@ def run(run, ix, tier):
         rets = [x for x in ast.walk(cmp_helper) if isinstance(x, ast.Return)
                 and isinstance(x.value, ast.Call) and isinstance(x.value.func, ast.Name)
                 and len(params) == 3 and x.value.func.id == params[2]]
+        # the exact-rational path (rule F-R13) has a kernel call of its own
+        rational = [x for x in rets if '_scaled' in norm(x.value)]
+        rets = [x for x in rets if x not in rational]
+        check_rational_operands(run, ix, cmp_helper, rational, eff)
         if len(rets) != 1:
             reason = '_compare does not end in a single call of the comparison kernel'
         else:
@@ -300,6 +304,71 @@ class Rerounded(Exception):
     """an operand of the comparison is replaced by a re-rounded copy (+x / -x / abs(x))"""
 
 
+def check_rational_operands(run, ix, cmp_helper, rational, eff):
+    """F-R13.  A Fraction or mpq operand is an exact number.  Converting it yields its ENCLOSURE at the working
+    precision, and comparing enclosures answers a different question (iv.mpf([2**53, 2**53+2]) == Fraction(2**53+1)
+    was True; Fraction(1, 3) in [fl(1/3), 1] False; iv.mpf(0.1) > Fraction(1, 10) None).  Decided: _compare and
+    __contains__ test for a rational first (`_rational`: the pair from `_mpq_` or (numerator, denominator) of a
+    numbers.Rational that is not an int), scale the interval by the denominator with precision-less -- exact --
+    mpf_mul in `_scaled`, and hand (scaled self, point of the numerator) to the kernel in that order."""
+    run.rule('F-R13', floor=4, desc='exact rational operands of interval comparisons are compared exactly')
+    rat = eff.get('_rational')
+    sc = eff.get('_scaled')
+    if not isinstance(rat, ast.FunctionDef) or not isinstance(sc, ast.FunctionDef) or not rational:
+        run.fail(Finding('F-R13', CTX_IV, 'ivmpf._compare', 'def _compare',
+                         'a Fraction / mpq operand is converted to its enclosure at the working precision before the '
+                         'comparison: == / != / in give definite answers about the enclosure, not the number '
+                         '(iv.mpf([2**53, 2**53+2]) == Fraction(2**53+1) is True)', line=cmp_helper.lineno))
+        return
+    rr = [norm(x.value) for x in ast.walk(rat) if isinstance(x, ast.Return)]
+    t = rat.args.args[1].arg
+    if sorted(rr) == sorted(['%s._mpq_' % t, '(%s.numerator, %s.denominator)' % (t, t), 'None']):
+        run.ok('F-R13', '_rational yields the exact (numerator, denominator) or None')
+    else:
+        run.fail(Finding('F-R13', CTX_IV, 'ivmpf._rational', 'def _rational', '_rational does not return the exact '
+                         'numerator / denominator pair of the operand: %s' % rr, line=rat.lineno))
+    # _scaled: exact products of both endpoints with the same integer
+    body = [norm(x) for x in sc.body if not (isinstance(x, ast.Expr) and isinstance(x.value, ast.Constant))]
+    q = sc.args.args[1].arg
+    me = sc.args.args[0].arg
+    want = ['a, b = %s._mpi_' % me, '%s = from_int(%s)' % (q, q), 'return (libmp.mpf_mul(a, %s), libmp.mpf_mul(b, %s))' % (q, q)]
+    if body == want:
+        run.ok('F-R13', '_scaled multiplies both endpoints by the denominator with precision-less (exact) mpf_mul')
+    else:
+        run.fail(Finding('F-R13', CTX_IV, 'ivmpf._scaled', 'def _scaled', 'the interval is not scaled exactly and '
+                         'uniformly (expected %s, found %s): a rounded or one-sided scaling changes the answer'
+                         % (want[-1], body[-1:]), line=sc.lineno))
+    # the kernel call
+    me, other, kern = [a.arg for a in cmp_helper.args.args]
+    pqs = [x for x in ast.walk(cmp_helper) if isinstance(x, ast.Assign) and
+           norm(x.value) == '%s._rational(%s)' % (me, other)]
+    ok = False
+    if pqs:
+        pq = norm(pqs[0].targets[0])
+        for r in rational:
+            par = r._parent
+            pdef = [x for x in par.body if isinstance(x, ast.Assign) and norm(x.value) == 'from_int(%s[0])' % pq] \
+                if isinstance(par, ast.If) else []
+            if isinstance(par, ast.If) and norm(par.test) == '%s is not None' % pq and pdef:
+                pn = norm(pdef[0].targets[0])
+                if norm(r.value) == '%s(%s._scaled(%s[1]), (%s, %s))' % (kern, me, pq, pn, pn) and \
+                        par.lineno > pqs[0].lineno:
+                    ok = True
+    if ok:
+        run.ok('F-R13', '_compare: cmpfun(self scaled by the denominator, point of the numerator), self first')
+    else:
+        run.fail(Finding('F-R13', CTX_IV, 'ivmpf._compare', norm(rational[0]), 'the rational path does not call the '
+                         'kernel as cmpfun(self._scaled(q), (p, p)) under `pq is not None`', line=rational[0].lineno))
+    cont = eff.get('__contains__')
+    txt = ast.unparse(cont) if isinstance(cont, ast.FunctionDef) else ''
+    if '_rational(' in txt and 'mpf_le(a, p) and mpf_le(p, b)' in txt and '_scaled(' in txt:
+        run.ok('F-R13', '__contains__: a*q <= p <= b*q for a rational p/q')
+    else:
+        run.fail(Finding('F-R13', CTX_IV, 'ivmpf.__contains__', 'def __contains__', 'membership of a rational is not '
+                         'decided as a*q <= p <= b*q on the exactly scaled interval',
+                         line=getattr(cont, 'lineno', None)))
+
+
 def eval_contains(ix, fnode, s_iv, t_iv, optable, t_imag=None):
     """Evaluate `t in s` on one endpoint ordering.  t_imag=None: t is a real interval;
     'zero' / 'nonzero': t is a complex interval with real part t_iv and that imaginary part."""
@@ -364,6 +433,14 @@ def eval_contains(ix, fnode, s_iv, t_iv, optable, t_imag=None):
                 # +x / -x of an interval is mpi_pos / mpi_neg at the CURRENT precision: a wider interval
                 raise Rerounded(norm(e))
             raise Unsupported('unary operator on %r' % (v,))
+        if isinstance(e, ast.Call) and norm(e.func) == 'self._rational' and len(e.args) == 1:
+            ev(e.args[0])
+            return ('none',)          # the operand is an interval here, not a Fraction / mpq (rule F-R13)
+        if isinstance(e, ast.Compare) and len(e.ops) == 1 and isinstance(e.ops[0], (ast.Is, ast.IsNot)) and \
+                isinstance(e.comparators[0], ast.Constant) and e.comparators[0].value is None:
+            v = ev(e.left)
+            isnone = (v == ('none',))
+            return isnone if isinstance(e.ops[0], ast.Is) else not isnone
         if isinstance(e, ast.Compare) and len(e.ops) == 1:
             a = ev(e.left)
             b = ev(e.comparators[0])
